@@ -4,8 +4,10 @@ package main
 import (
 	"bytes"
 	"encoding/binary"
+	"errors"
 	"flag"
 	"fmt"
+	"io"
 	"math/rand"
 	"net"
 	"os"
@@ -247,9 +249,28 @@ func runCase(c *dcase, r *res.Result) (string, string) {
 		buf := make([]byte, 9000)
 		var last uint32
 		reads := 0
+		hr := rand.New(rand.NewSource(c.Seed*7 + int64(cl.idx)))
 		for {
 			conn.SetReadDeadline(time.Now().Add(50 * time.Millisecond))
-			n, err := conn.Read(buf)
+			rb := buf
+			if hr.Intn(8) == 0 {
+				rb = buf[:16] // a short read: the datagram is consumed, its first 16 bytes are returned with io.ErrShortBuffer
+			}
+			n, err := conn.Read(rb)
+			if errors.Is(err, io.ErrShortBuffer) && len(rb) == 16 && n == 16 {
+				hci := int(binary.BigEndian.Uint16(rb[1:]))
+				hseq := binary.BigEndian.Uint32(rb[3:])
+				hsize := int(binary.BigEndian.Uint32(rb[7:]))
+				if hsize <= 16 || hsize > 9000 || !bytes.Equal(rb[:16], mk(hci, hseq, hsize, rb[0] == 3)[:16]) {
+					violate("demux:corrupt", fmt.Sprintf("connection of %s: a short read returned 16 bytes that are not the head of an intact datagram", ra))
+					break
+				}
+				r.Count("short_reads", 1)
+				// the whole datagram is consumed: hand the complete one to the checks below
+				n = hsize
+				copy(buf, mk(hci, hseq, hsize, rb[0] == 3))
+				err = nil
+			}
 			if err != nil {
 				if atomic.LoadInt32(&stop) != 0 {
 					break
@@ -566,7 +587,7 @@ func main() {
 	flag.Parse()
 	_, _ = nshard, replay
 	r := res.New("C11")
-	r.Rule = "2-24 client sockets on 127.0.0.1 (and the same port on 127.0.0.2/.3) send tagged datagrams (client, seq, length, filler; sizes 12..8192) to a real loopback listener; configurations: one remote overfilling its connection's 4 MiB receive buffer while the handler does not read (slow reader), backlog 1/2/128, accept filter none / first-byte-even, batch reads off/2/8, paced (window <= 8 datagrams or 4 KiB outstanding per client) or burst, connections closed after a few reads and re-created, an overflow phase with more first datagrams than the backlog while nobody accepts; oracle per connection: remote address == tagged sender, strictly increasing seq (across successive connections of a remote too), byte-identical payload, gap-free and complete in paced mode, no second open connection per remote, no connection for filtered remotes, at most backlog connections queued, first read = first admitted datagram; distinct = (case shape) cells"
+	r.Rule = "2-24 client sockets on 127.0.0.1 (and the same port on 127.0.0.2/.3) send tagged datagrams (client, seq, length, filler; sizes 12..8192) to a real loopback listener (every eighth read of a connection handler is a short read into 16 bytes); configurations: one remote overfilling its connection's 4 MiB receive buffer while the handler does not read (slow reader), backlog 1/2/128, accept filter none / first-byte-even, batch reads off/2/8, paced (window <= 8 datagrams or 4 KiB outstanding per client) or burst, connections closed after a few reads and re-created, an overflow phase with more first datagrams than the backlog while nobody accepts; oracle per connection: remote address == tagged sender, strictly increasing seq (across successive connections of a remote too), byte-identical payload, gap-free and complete in paced mode, no second open connection per remote, no connection for filtered remotes, at most backlog connections queued, first read = first admitted datagram; distinct = (case shape) cells"
 	r.Assumptions = []string{"Linux loopback UDP does not reorder between one socket pair and does not drop while less than 100 KiB is outstanding in total", "listener idleness is read from the read loop's goroutine state (IO wait, two samples)"}
 	n := 40
 	if *tier == "thorough" {
